@@ -51,8 +51,8 @@ func runStorm(c stormCase) *rp.Fail {
 		}
 		for i := 0; i < c.Strays; i++ {
 			e.Conn.WriteToUDPAddrPort(stray, r.From)
-			if i%512 == 511 {
-				time.Sleep(200 * time.Microsecond) // (keeps the receive queue from overflowing: the strays are to ARRIVE)
+			if i%40 == 39 {
+				time.Sleep(time.Millisecond) // (about 40 000 a second: the receive queue must not overflow - the strays are to ARRIVE)
 			}
 		}
 		good := validFor(call, r.Data)
@@ -95,9 +95,9 @@ func runStorm(c stormCase) *rp.Fail {
 }
 
 func sweepStorm(yield func(stormCase) bool) {
-	cases := []stormCase{{Strays: 70000, Op: "GetTime", TimeoutMs: 20000}, {Strays: 66000, Op: "GetCardByID", TimeoutMs: 20000, Short: true}}
+	cases := []stormCase{{Strays: 80000, Op: "GetTime", TimeoutMs: 30000}, {Strays: 76000, Op: "GetCardByID", TimeoutMs: 30000, Short: true}}
 	if ev.Thorough() {
-		cases = append(cases, stormCase{Strays: 132000, Op: "GetStatus", TimeoutMs: 40000}, stormCase{Strays: 65535, Op: "GetTime", TimeoutMs: 20000}, stormCase{Strays: 65537, Op: "OpenDoor", TimeoutMs: 20000, Short: true})
+		cases = append(cases, stormCase{Strays: 140000, Op: "GetStatus", TimeoutMs: 60000}, stormCase{Strays: 65535, Op: "GetTime", TimeoutMs: 30000}, stormCase{Strays: 65537, Op: "OpenDoor", TimeoutMs: 30000, Short: true})
 	}
 	for i, c := range cases {
 		if ev.Mine(i+2) && !yield(c) {
